@@ -466,6 +466,15 @@ func (s *Synchronizer) revertTask(
 				break
 			}
 
+			// ... and that it is a self-consistent block: the decision below rests on its hash,
+			// which an unverified answer can claim freely
+			if _, err := s.blockchain.SanityCheckNewHeight(
+				remoteBlock.Block, remoteBlock.StateUpdate, remoteBlock.NewClasses,
+			); err != nil {
+				s.logger.Error("Remote block failed sanity checks", zap.Error(err))
+				break
+			}
+
 			// Double check to avoid reverting the head if the hash is the same
 			if *remoteHeader.Hash == *localHeader.Hash {
 				break
